@@ -401,6 +401,13 @@ def check_project(ctx, tools, spec, root):
                 fails.append({'kind': 'statement_missing', 'item': it, 'role': role})
             else:
                 jobs.append((it, role, b))
+    if spec.get('label') == 'corpus-c-mixed':
+        # self-check of the fixed mixed-mode projects: each of the compile and link rules must be used by a
+        # response-file statement AND by a plain statement, otherwise the project no longer exercises what it is for
+        used = {(b['rule'].replace('_RSP', ''), b['rule'].endswith('_RSP')) for it, role, b in jobs if role in ('compile', 'link')}
+        for rname in {r for r, _ in used}:
+            if not ((rname, True) in used and (rname, False) in used):
+                raise HarnessError('C03 corpus-c-mixed: rule %s is not used both with and without a response file (%s)' % (rname, sorted(used)))
     # round 1: edge variables
     c1, idx1 = [], []
     for j, (it, role, b) in enumerate(jobs):
@@ -734,8 +741,14 @@ def report(ctx, fails, found):
                           'time ("Ninja does not support newlines in rules"): %s' % json.dumps(it)[:300], {'project': f['project'], 'failure': f})
             continue
         ident = 'C03:e2e:' + json.dumps({'kind': f['kind'], 'role': f.get('role'), 'item': it}, sort_keys=True)
+        brief = ''
+        for wk, gk in (('want_extra', 'got_extra'), ('want_group', 'got_group')):
+            if wk in f:
+                w, g = list(f[wk]), list(f[gk])
+                d = [(a, b) for a, b in zip(w + [None] * len(g), g + [None] * len(w)) if a != b][:3]
+                brief = ' [%s %s: specified/received %s]' % (f.get('role'), wk[5:], json.dumps(d))
         found.append(('e2e:%s:%s' % (f['kind'], (it or {}).get('kind')), ident,
-                      'end to end: %s for %s' % (f['kind'], json.dumps({k: v for k, v in f.items() if k != 'project'}, default=str)[:900]),
+                      'end to end: %s%s for %s' % (f['kind'], brief, json.dumps({k: v for k, v in f.items() if k != 'project'}, default=str)[:900]),
                       {'project': f['project'], 'failure': {k: v for k, v in f.items() if k != 'project'}}))
 
 
@@ -774,12 +787,16 @@ def stream(ctx, tools, thorough, found):
     # arguments; written in both orders
     pad_c = ['-DPAD%d=pppppppppppppppppppp' % k for k in range(70)]
     pad_l = ['-Wxpad%d,qqqqqqqqqqqqqqqqqq' % k for k in range(70)]
+    base_ = {'kind': 'exe', 'baseline': True, 'c_args': [], 'link_args': []}
     for order in (0, 1):
         short = {'kind': 'exe', 'id': 9110 + order, 'c_args': ['-DS=s\\t'], 'link_args': ['-Wxs,s\\t']}
         long_ = {'kind': 'exe', 'id': 9120 + order, 'c_args': ['-DS=s\\t'] + pad_c, 'link_args': ['-Wxs,s\\t'] + pad_l}
         specs.append({'lang_c': True, 'rsp': 'mixed', 'label': 'corpus-c-mixed',
                       'global_args': ['-DGL=g l\\o'], 'project_args': ['-DPR=p\\r', '-mpr=x\\y'], 'project_link_args': ['-Wxpl,a\\b'],
-                      'items': ([short, long_] if order == 0 else [long_, short]) + [
+                      # the baseline executable (no arguments of its own) is a short statement too: it is what the other
+                      # two are compared with, and its own project/global arguments are checked as well.  order 0 writes
+                      # plain statements first, order 1 the response-file statement first.
+                      'items': ([dict(base_, id=9140), short, long_] if order == 0 else [long_, short, dict(base_, id=9141)]) + [
                           # the other command positions next to response-file statements (same rules, same file)
                           {'kind': 'generator', 'id': 9130 + order, 'args': ['a b', "it's", '$x', 'b\\s'], 'env': {'MV_A': "g e'n$"}, 'capture': bool(order)},
                           {'kind': 'run_target', 'id': 9132 + order, 'args': ['r s', '*', '#'], 'env': {'MV_A': 'x y', 'MV_B': '$h'}},
@@ -813,16 +830,29 @@ def stream(ctx, tools, thorough, found):
             items += [x for x in gen_items(rng, CK.gen_arg, 3, nextid, True) if x['kind'] == 'exe']
         pa = lambda tag: [re.sub(r'\.(a|lib|dll|dylib|so(\.[0-9]+)*)$', '_', tag + CK.gen_arg(rng, False)) for _ in range(rng.randint(0, 2))]
         mode = [False, True, 'mixed'][q % 3]
+        fixed = {'global_args': [], 'project_args': [], 'project_link_args': []}
         if mode == 'mixed':
             for it in items[1::2]:
                 it['c_args'] = it['c_args'] + pad_c
                 it['link_args'] = it['link_args'] + pad_l
+            # every mixed project shares backslash-carrying arguments between its plain and its response-file
+            # statements of the same rule, and every second one writes a response-file statement first
+            fixed = {'global_args': ['-DGLB=g\\b'], 'project_args': ['-mprb=p\\b'], 'project_link_args': ['-Wxplb,l\\b']}
+            for it in items[1:]:
+                it['c_args'] = ['-DSB%d=s\\b' % it['id']] + it['c_args']
+                it['link_args'] = ['-Wxsb%d,s\\b' % it['id']] + it['link_args']
+            if (q // 3) % 2 == 1:
+                items = items[1:] + items[:1]      # a padded executable first, the baseline last
             # generator / run_target / custom_target / test (env, workdir, capture, feed) in the same project
             items += gen_items(rng, CK.gen_arg, 5, nextid, False)
         specs.append({'lang_c': True, 'rsp': mode, 'label': 'random-c', 'items': items,
-                      'global_args': [('-DGL%d=' % k) + a for k, a in enumerate(pa(''))],
-                      'project_args': [('-mpr%d=' % k) + a for k, a in enumerate(pa(''))],
-                      'project_link_args': [('-Wxpl%d,' % k) + a for k, a in enumerate(pa(''))]})
+                      'global_args': fixed['global_args'] + [('-DGL%d=' % k) + a for k, a in enumerate(pa(''))],
+                      'project_args': fixed['project_args'] + [('-mpr%d=' % k) + a for k, a in enumerate(pa(''))],
+                      'project_link_args': fixed['project_link_args'] + [('-Wxpl%d,' % k) + a for k, a in enumerate(pa(''))]})
+    for sp in specs:      # the harness must never skip the compile/link comparison silently
+        if any(it['kind'] == 'exe' for it in sp['items']) and not any(it.get('baseline') for it in sp['items']) \
+                and not str(sp.get('label', '')).startswith('probe'):
+            raise HarnessError('C03 generator: a project with executables has no baseline executable: %s' % sp.get('label'))
     fails, stats = run_projects(ctx, tools, specs)
     try:
         shrink(ctx, tools, [f for f in fails if not is_newline_finding(f)])
